@@ -1151,7 +1151,7 @@ func KeywordRouting(p *core.Prog, r *core.Report) {
 			r.Unk(rule, "dependencies:keyword-field", pos, "cannot resolve the field holding dependencies")
 		}
 		r.Count("dependencies_routing_configurations", n)
-		r.Floor("dependencies_routing_configurations", 4)
+		r.Floor("dependencies_routing_configurations", 3)
 		report("dependencies:schema", pos, n, noSchema, "a member with a schema dependency makes the whole instance validate against that schema", "a schema dependency of a present member is not applied")
 		report("dependencies:property", pos, n, noProp, "a member with property dependencies raises an error for each dependency that is absent", "an absent property dependency of a present member is not reported")
 		report("dependencies:only-then", pos, n, spurious, "dependencies are applied only for members that are present and declare them, and an error only for an absent dependency", "a dependency is applied or reported although the member is absent / declares none / the dependency is present")
